@@ -11,7 +11,17 @@ PICKLER_LOG = []  # (task id, pickler name in force in the worker when the body 
 
 
 class Unpicklable:
+    """pickling fails — with the error types real objects fail with (PicklingError, an OSError from a closed handle,
+    a TypeError from an un-picklable member)"""
+
+    def __init__(self, how=0):
+        self.how = how
+
     def __reduce__(self):
+        if self.how % 3 == 1:
+            raise OSError("simulated: handle is closed")
+        if self.how % 3 == 2:
+            raise TypeError("simulated: cannot pickle '_thread.lock' object")
         raise pickle.PicklingError("simulated: cannot pickle")
 
 
@@ -50,8 +60,8 @@ class UnpicklableError(Exception):
         raise pickle.PicklingError("simulated: exception cannot be pickled")
 
 
-def make_arg(kind):
-    return {"ok": None, "unpicklable": Unpicklable(), "toolarge": TooLarge(), "badunpickle": BadUnpickle()}[kind]
+def make_arg(kind, i=0):
+    return {"ok": None, "unpicklable": Unpicklable(i), "toolarge": TooLarge(), "badunpickle": BadUnpickle()}[kind]
 
 
 def task(i, spec, arg=None):
@@ -132,7 +142,7 @@ class CbSubmit:
         if ex is None:
             return
         spec = self.tasks[self.k]
-        f = ex.submit(task, self.k, spec, make_arg(spec.get("args", "ok")))
+        f = ex.submit(task, self.k, spec, make_arg(spec.get("args", "ok"), self.k))
         H.futs[self.k] = f
         H.by_wid.append((self.k, f))
         H.cb_submitted.append(self.k)
